@@ -1,2 +1,2 @@
 SPECIFICATION Spec
-INVARIANTS ResponseLayout ForwardUnchanged ForwardOnce ActsOnNamed UnknownNothing Emit
+INVARIANTS ResponseLayout ForwardUnchanged ForwardOnce ChannelOfReceiver ActsOnNamed UnknownNothing Emit
